@@ -1,11 +1,18 @@
 import QuiverModel.Theorems.C04
 import QuiverModel.Lemmas.Sys.Commute
+import QuiverModel.Lemmas.Sys.Kahn
 /-
 C03 — Results do not depend on scheduling, worker count or time-slice length.
 
-Level `other`: the end-to-end confluence statement (`ConfluenceStatement`) is NOT proved; what is
-proved on M-Sys (the model executed in lock-step with the real Environment/Workers) are its
-building blocks: worker steps are local and commute, the time slice is additive in its budget, the
+Level `other`: the end-to-end confluence statement (`ConfluenceStatement`) is NOT proved in full.
+Proved for the await/spawn fragment (script tables with a static register typing, `RegTyping`):
+DETERMINACY — every process's history is the Kahn trace of its script (`kahn_invariant`,
+`history_is_trace`), so two runs with any worker counts, quanta, schedules and ordering hints agree
+on every history prefix and on every result both have (`confluence_histories_agree`,
+`confluence_results_agree`); the statement's conclusion then follows from the progress half alone
+(`confluence_await_spawn_partial`, missing hypothesis `ProgressStatement`).  Not proved: progress,
+and receives (mailbox contents enter the history).  Also proved on M-Sys (the model executed in
+lock-step with the real Environment/Workers), the building blocks: worker steps are local and commute, the time slice is additive in its budget, the
 arrival order in a single-sender mailbox is the sender's send order in every schedule, no schedule
 produces an internal error, no schedule loses a wake-up (from C04).  The rest is exploration
 (harness/src/bin/c03.rs).
@@ -165,5 +172,143 @@ theorem confluence_partial :
 /-- the hypotheses are satisfiable: two workers with work to do -/
 example : (C04.reach 2 C04.exProg 1 [.worker 0 100 5 [] [], .env [100, 100]]).cmdQ 1 ≠ [] ∧
     (C04.reach 2 C04.exProg 1 [.worker 0 100 5 [] [], .env [100, 100]]).cmdQ 0 ≠ [] := by decide
+
+/-! ### confluence of the await/spawn fragment: determinacy proved, progress stated -/
+
+/-- an idle state is past the start-up phase -/
+theorem not_preStart_of_idle {s : Sys} (hidle : s.idle) : ¬ PreStart s := by
+  intro h
+  obtain ⟨k, req, hq⟩ := h.cmd0
+  have := (hidle 0 h.npos).1
+  rw [hq] at this
+  cases k <;> simp [List.replicate] at this
+
+/-- **Kahn invariant**, reachable states: for a script table with a static register typing
+(`RegTyping`: await/spawn/send scripts, every select one process source) every process's history
+`acc` is THE trace of its script at its position, and a finished process's result is the value of
+its complete trace — for every worker count, slicing, interleaving and ordering hint. -/
+theorem kahn_invariant (ρ : Nat → Nat → Nat) (ar : Nat → Nat) (n : Nat) (prog : Prog) (req : Nat) (hn : 0 < n)
+    (hwf : ProgWF prog) (hty : RegTyping prog ρ ar) (cs : List Choice) :
+    PreStart (C04.reach n prog req cs) ∨ KInv ρ ar (C04.reach n prog req cs) :=
+  QM.Sys.kahn_invariant ρ ar n prog req hn hwf hty cs
+
+theorem reach_prog (n : Nat) (prog : Prog) (req : Nat) (cs : List Choice) : (C04.reach n prog req cs).prog = prog :=
+  run_prog Rules.current (Sys.init n prog req) cs
+
+/-- every process's history is the Kahn trace of its script (started states) -/
+theorem history_is_trace (ρ : Nat → Nat → Nat) (ar : Nat → Nat) (n : Nat) (prog : Prog) (req : Nat) (hn : 0 < n)
+    (hwf : ProgWF prog) (hty : RegTyping prog ρ ar) (cs : List Choice) (hs : ¬ PreStart (C04.reach n prog req cs))
+    (w : Wid) (p : Pid) (x : Proc) (hx : ((C04.reach n prog req cs).wk w).procs p = some x) :
+    Trace prog ρ x.fn x.pc x.acc ∧
+    (∀ r, x.result = some r → r = .ok x.value ∧ x.pc = (prog.getD x.fn []).length) := by
+  rcases kahn_invariant ρ ar n prog req hn hwf hty cs with h | h
+  · exact absurd h hs
+  · have hp := h.procs w p x hx
+    have hpr := reach_prog n prog req cs
+    refine ⟨by have := hp.trace; rwa [hpr] at this, ?_⟩
+    intro r hr
+    cases r with
+    | err => exact absurd hr hp.noerr
+    | ok v =>
+      obtain ⟨h1, h2, _⟩ := hp.fin v hr
+      rw [hpr] at h2
+      exact ⟨by rw [h1], h2⟩
+
+/-- **Determinacy of histories** across runs: two processes that run the same script — in two runs
+with any worker counts, quanta, schedules — have prefix-related histories. -/
+theorem confluence_histories_agree (ρ : Nat → Nat → Nat) (ar : Nat → Nat) (prog : Prog) (hwf : ProgWF prog)
+    (hty : RegTyping prog ρ ar) (n1 n2 req1 req2 : Nat) (cs1 cs2 : List Choice) (hn1 : 0 < n1) (hn2 : 0 < n2)
+    (hs1 : ¬ PreStart (C04.reach n1 prog req1 cs1)) (hs2 : ¬ PreStart (C04.reach n2 prog req2 cs2))
+    (w1 w2 : Wid) (p1 p2 : Pid) (x1 x2 : Proc)
+    (hx1 : ((C04.reach n1 prog req1 cs1).wk w1).procs p1 = some x1)
+    (hx2 : ((C04.reach n2 prog req2 cs2).wk w2).procs p2 = some x2)
+    (hfn : x1.fn = x2.fn) (hle : x1.pc ≤ x2.pc) : x1.acc <+: x2.acc := by
+  have t1 := (history_is_trace ρ ar n1 prog req1 hn1 hwf hty cs1 hs1 w1 p1 x1 hx1).1
+  have t2 := (history_is_trace ρ ar n2 prog req2 hn2 hwf hty cs2 hs2 w2 p2 x2 hx2).1
+  rw [hfn] at t1
+  exact t2.prefix t1 hle
+
+/-- **Determinacy of results** (the safety half of confluence, await/spawn fragment): whenever two
+runs both have a result for a script, it is the same result — any worker counts, any quanta, any
+interleavings, any ordering hints. -/
+theorem confluence_results_agree (ρ : Nat → Nat → Nat) (ar : Nat → Nat) (prog : Prog) (hwf : ProgWF prog)
+    (hty : RegTyping prog ρ ar) (n1 n2 req1 req2 : Nat) (cs1 cs2 : List Choice) (hn1 : 0 < n1) (hn2 : 0 < n2)
+    (hs1 : ¬ PreStart (C04.reach n1 prog req1 cs1)) (hs2 : ¬ PreStart (C04.reach n2 prog req2 cs2))
+    (k : Nat) (r1 r2 : Res)
+    (h1 : resultOfScript (C04.reach n1 prog req1 cs1) k r1) (h2 : resultOfScript (C04.reach n2 prog req2 cs2) k r2) :
+    r1 = r2 := by
+  obtain ⟨w1, p1, x1, hx1, hf1, hr1⟩ := h1
+  obtain ⟨w2, p2, x2, hx2, hf2, hr2⟩ := h2
+  obtain ⟨t1, f1⟩ := history_is_trace ρ ar n1 prog req1 hn1 hwf hty cs1 hs1 w1 p1 x1 hx1
+  obtain ⟨t2, f2⟩ := history_is_trace ρ ar n2 prog req2 hn2 hwf hty cs2 hs2 w2 p2 x2 hx2
+  obtain ⟨e1, l1⟩ := f1 r1 hr1
+  obtain ⟨e2, l2⟩ := f2 r2 hr2
+  rw [hf1, l1] at t1
+  rw [hf2, l2] at t2
+  rw [hf1] at t1; rw [hf2] at t2
+  have := t1.det t2
+  rw [e1, e2]; simp [Proc.value, hf1, hf2, this]
+
+/-- the progress half, as a statement about one script table: an idle run has a result for every
+script any other run has a result for -/
+def ProgressStatement (prog : Prog) : Prop :=
+  ∀ (n1 n2 req1 req2 : Nat) (cs1 cs2 : List Choice), 0 < n1 → 0 < n2 →
+    (C04.reach n2 prog req2 cs2).idle →
+    ∀ k r, resultOfScript (C04.reach n1 prog req1 cs1) k r → ∃ r', resultOfScript (C04.reach n2 prog req2 cs2) k r'
+
+/-- **Confluence of the await/spawn fragment, up to progress**: the conclusion of
+`ConfluenceStatement` for every script table with a register typing, from `ProgressStatement`
+alone (the single missing hypothesis; it is a liveness property of the await protocol — cf.
+`C04.AwaitAnswerCompleteStatement` — and does not mention results). -/
+theorem confluence_await_spawn_partial (ρ : Nat → Nat → Nat) (ar : Nat → Nat) (prog : Prog) (hwf : ProgWF prog)
+    (hty : RegTyping prog ρ ar) (hprogress : ProgressStatement prog)
+    (n1 n2 req1 req2 : Nat) (cs1 cs2 : List Choice) (hn1 : 0 < n1) (hn2 : 0 < n2)
+    (hi1 : (C04.reach n1 prog req1 cs1).idle) (hi2 : (C04.reach n2 prog req2 cs2).idle)
+    (k : Nat) (r : Res) (h1 : resultOfScript (C04.reach n1 prog req1 cs1) k r) :
+    resultOfScript (C04.reach n2 prog req2 cs2) k r := by
+  obtain ⟨r', h2⟩ := hprogress n1 n2 req1 req2 cs1 cs2 hn1 hn2 hi2 k r h1
+  have := confluence_results_agree ρ ar prog hwf hty n1 n2 req1 req2 cs1 cs2 hn1 hn2
+    (not_preStart_of_idle hi1) (not_preStart_of_idle hi2) k r r' h1 h2
+  rw [this]; exact h2
+
+/-! ### the hypotheses are satisfiable -/
+
+/-- main spawns A, spawns B handing it A, awaits B then A; A finishes at once; B awaits A -/
+def kProg : Prog :=
+  [[.spawn 1 [], .spawn 2 [1], .select [.proc 2], .select [.proc 1]], [], [.select [.proc 1]]]
+
+def kRho : Nat → Nat → Nat
+  | 0, r => r
+  | 1, _ => 1
+  | 2, 0 => 2
+  | _, _ => 1
+
+def kAr : Nat → Nat := fun k => if k = 2 then 1 else 0
+
+theorem kProg_wf : ProgWF kProg := by
+  refine ⟨by decide, ?_⟩
+  intro sc hsc fn pass hm
+  simp [kProg] at hsc
+  rcases hsc with rfl | rfl | rfl <;> simp at hm <;> (rcases hm with ⟨rfl, _⟩ | ⟨rfl, _⟩) <;> decide
+
+theorem kProg_typed : RegTyping kProg kRho kAr := by
+  refine ⟨rfl, rfl, ?_⟩
+  intro k j a h
+  match k, j, h with
+  | 0, 0, h => simp [kProg] at h; subst h; simp [ActTyped, base, nspawn, kRho, kAr, kProg]
+  | 0, 1, h => simp [kProg] at h; subst h; simp [ActTyped, base, nspawn, isSpawnAct, kRho, kAr, kProg]
+  | 0, 2, h => simp [kProg] at h; subst h; simp [ActTyped, base, nspawn, kAr, kProg]; decide
+  | 0, 3, h => simp [kProg] at h; subst h; simp [ActTyped, base, nspawn, kAr, kProg]; decide
+  | 0, j + 4, h => simp [kProg] at h
+  | 1, j, h => simp [kProg] at h
+  | 2, 0, h => simp [kProg] at h; subst h; simp [ActTyped, base, nspawn, kAr, kProg]
+  | 2, j + 1, h => simp [kProg] at h
+  | k + 3, j, h => simp [kProg] at h
+
+/-- the hypotheses are met by a concrete two-worker run: after main's first slice on worker 0, one
+environment step and one step of worker 1, process 1 (script 1) has finished ON WORKER 1 while
+main is parked on worker 0 -/
+example : ((C04.reach 2 kProg 1 [.worker 0 100 5 [] [], .env [100, 100], .worker 1 100 5 [] []]).wk 1).resultOf 1 =
+    some (.ok (Val.tuple [[1]])) := by decide +kernel
 
 end C03
